@@ -225,8 +225,35 @@ func c07Input(r *Rng, pat string) string {
 }
 
 type c07Re struct {
-	re  *regexp2.Regexp
-	anc *regexp2.Regexp // anchored-attempt wrapper, nil when not available
+	re   *regexp2.Regexp
+	anc  *regexp2.Regexp // anchored-attempt wrapper, nil when not available
+	pat  string
+	rtl  bool
+	opts regexp2.RegexOptions
+	ancG map[int]*regexp2.Regexp // \G patterns: attempt anchored at rune p by a lookbehind, \G origin free
+}
+
+// for a pattern that tests \G: a wrapper whose only possible match start is rune p, while \G still
+// refers to the search's textstart, so FindRunesMatchStartingAt(ts) yields attempt(ts, p)
+func (c *c07Re) anchoredAt(p int) *regexp2.Regexp {
+	if c.ancG == nil {
+		c.ancG = map[int]*regexp2.Regexp{}
+	}
+	if re, ok := c.ancG[p]; ok {
+		return re
+	}
+	w := fmt.Sprintf(`(?<=\A(?s:.{%d}))(?:%s)`, p, c.pat)
+	if c.rtl {
+		w = fmt.Sprintf(`(?:%s)(?<=\A(?s:.{%d}))`, c.pat, p)
+	}
+	re, err := regexp2.Compile(w, c.opts)
+	if err != nil {
+		re = nil
+	} else {
+		re.MatchTimeout = 2 * time.Second
+	}
+	c.ancG[p] = re
+	return re
 }
 
 func c07Compile(pat string, rtl bool, extra regexp2.RegexOptions) (out *c07Re, err error) {
@@ -244,7 +271,7 @@ func c07Compile(pat string, rtl bool, extra regexp2.RegexOptions) (out *c07Re, e
 		return nil, err
 	}
 	re.MatchTimeout = 2 * time.Second
-	out = &c07Re{re: re}
+	out = &c07Re{re: re, pat: pat, rtl: rtl, opts: opts}
 	if !strings.Contains(pat, `\G`) {
 		w := `\G(?:` + pat + `)`
 		if rtl {
@@ -364,6 +391,7 @@ type c07Stats struct {
 	rtl, ltr, withG, filtered, harvested, lookbehind, modelled, emptyAdj, multi int
 	nSeen                                                                       map[int]int
 	abort                                                                       bool // a library call hung: stop generating
+	modelledG                                                                   int
 }
 
 // one (pattern, direction, input) unit; adds one case per n
@@ -546,6 +574,51 @@ func c07Unit(c *Ctx, st *c07Stats, cre *c07Re, pat string, rtl bool, extra regex
 		}
 	}
 
+	modelLeg := 701
+	if hasG && err == nil && !over {
+		// two-dimensional table: key ts*(L+1)+p, for every pair the scan can visit
+		modelLeg = 702
+		modelOK = true
+		var ent []int64
+		cnt := 0
+		for p := 0; p <= L && modelOK; p++ {
+			w := cre.anchoredAt(p)
+			if w == nil {
+				modelOK = false
+				break
+			}
+			for ts := 0; ts <= L; ts++ {
+				if (!rtl && ts > p) || (rtl && ts < p) {
+					continue
+				}
+				m, e := func() (m *regexp2.Match, e error) {
+					defer func() {
+						if pp := recover(); pp != nil {
+							e = fmt.Errorf("panic: %v", pp)
+						}
+					}()
+					return w.FindRunesMatchStartingAt(runes, ts)
+				}()
+				if e != nil {
+					modelOK = false
+					break
+				}
+				key := int64(ts*(L+1) + p)
+				cnt++
+				if m == nil {
+					ent = append(ent, key, 0, 0, 0, 0, 0)
+					continue
+				}
+				s := c07Span{m.RuneIndex, m.RuneLength}
+				if s.start(rtl) != p {
+					fail("forward violated: attempt anchored at %d (\\G origin %d) returned span %v", p, ts, s)
+				}
+				ent = append(ent, key, 1, int64(s.idx), int64(s.ln), int64(s.textpos(rtl)), 0)
+			}
+		}
+		table = append([]int64{int64(cnt)}, ent...)
+	}
+
 	bo := c07RuneToByte(in)
 	for _, n := range c07Ns {
 		st.nSeen[n]++
@@ -606,7 +679,10 @@ func c07Unit(c *Ctx, st *c07Stats, cre *c07Re, pat string, rtl bool, extra regex
 			}() > 0,
 			Direct: strings.Join(d, "; ")}
 		if modelOK && e == nil {
-			cs.ModelLeg = 701
+			cs.ModelLeg = modelLeg
+			if modelLeg == 702 {
+				st.modelledG++
+			}
 			cs.ModelIn = append([]int64{b2i(rtl), int64(L), int64(start), int64(n)}, table...)
 			cs.ImplOut = append(c07EncSeq(seq, rtl), c07EncPairs(got)...)
 			st.modelled++
@@ -645,7 +721,7 @@ func legC07Iter(c *Ctx) {
 	}
 	// harvested
 	hv := c07Harvest()
-	nh := c.N(400, len(hv))
+	nh := c.N(800, len(hv))
 	for i := 0; i < nh && len(hv) > 0; i++ {
 		p := hv[c.Rng.Intn(len(hv))]
 		if c.Thorough {
@@ -660,7 +736,7 @@ func legC07Iter(c *Ctx) {
 		}
 	}
 	// random grammar
-	ng := c.N(2200, 40000)
+	ng := c.N(6000, 60000)
 	for i := 0; i < ng; i++ {
 		p := c07Gen(c.Rng, 1+c.Rng.Intn(3), c.Rng.Chance(35))
 		rtl := c.Rng.Chance(45)
@@ -686,6 +762,7 @@ func legC07Iter(c *Ctx) {
 	c.Gate("iterations with an empty match adjacent to its predecessor", st.emptyAdj > 20)
 	c.Gate("iterations with at least two matches", st.multi > 100)
 	c.Gate("model fed with an attempt table", st.modelled > 500)
+	c.Gate("model fed with a two-dimensional (\\G origin x position) attempt table", st.modelledG > 100)
 	for _, n := range c07Ns {
 		c.Gate(fmt.Sprintf("n=%d exercised", n), st.nSeen[n] > 100)
 	}
